@@ -248,6 +248,10 @@ def wl_spelling(ctx, R, probe, rng, tz, zones):
             lines.append('DTSTART;TZID=Custom/Zone:' + fmt4(st))
             opts['tzids'] = rng.choice([{'Custom/Zone': zone}, lambda name, z=zone: z if name == 'Custom/Zone' else None])
             variant.append('DTSTART-TZID-tzids')
+    if how != 'kwarg' and rng.random() < .25:
+        # dtstart= is only a default for texts without DTSTART: the inline start wins over a different one passed along
+        opts['dtstart'] = rng.choice([D.datetime(2001, 1, 31, 17, 30), st + D.timedelta(days=3, minutes=7), st.replace(tzinfo=None) - D.timedelta(hours=1)])
+        variant.append('inline-wins-over-dtstart=')
     prefix = 'RRULE:' if (lines or rng.random() < .5) else ''
     if prefix and rng.random() < .2:
         prefix = prefix.lower()
@@ -266,6 +270,8 @@ def wl_spelling(ctx, R, probe, rng, tz, zones):
         opts['cache'] = True
         variant.append('cache')
     case = {'workload': 'spelling', 'kw': M.kw_json(kw), 'text': text, 'options': sorted(k for k in opts), 'variant': variant}
+    if 'inline-wins-over-dtstart=' in variant:
+        case['decoy_dtstart'] = opts['dtstart'].isoformat()
     ctx.ev()
     ctx.count('spellings')
     for v in variant:
@@ -290,9 +296,16 @@ def wl_spelling(ctx, R, probe, rng, tz, zones):
     a = occurrences(R, probe, ref_rule, hz, budget)
     b = occurrences(R, probe, got, hz, budget)
     ok, why = same_occurrences(a, b, hz)
+    try:
+        starts = (str(ref_rule).split('\n')[0], str(got).split('\n')[0])
+    except Exception:
+        starts = ('', '')
     if not ok:
         ctx.violation('spelling-meaning', case, why)
-    elif b[1]:
+    elif starts[0] != starts[1]:
+        # (also decides rules whose occurrences all lie beyond the compared horizon)
+        ctx.violation('spelling-start', case, 'start of the parsed rule %r, of the keyword rule %r' % (starts[1], starts[0]))
+    elif a[1] and b[1]:
         tza, tzb = a[1][0].tzinfo, b[1][0].tzinfo
         if (tza is None) != (tzb is None) or (tza is not None and not (tzb is tza or (tzb == tza and b[1][0].utcoffset() == a[1][0].utcoffset()))):
             ctx.violation('spelling-timezone', case, 'tzinfo %r vs keyword rule %r' % (tzb, tza))
@@ -568,7 +581,7 @@ def floors(agg, tier):
     for k, n in (('str_roundtrips', 1500 if tier == 'quick' else 20000), ('spellings', 1200 if tier == 'quick' else 15000),
                  ('set_texts', 1500 if tier == 'quick' else 20000), ('option_checks', 10), ('malformed_texts', 90),
                  ('variant_folded', 100), ('variant_DTSTART-TZID', 20), ('variant_DTSTART-Z', 20), ('variant_DTSTART-TZID-tzids', 20),
-                 ('variant_dtstart=', 100), ('periods_observed', 5000)):
+                 ('variant_dtstart=', 100), ('variant_inline-wins-over-dtstart=', 100), ('periods_observed', 5000)):
         if c.get(k, 0) < n:
             out.append('%s only %d (< %d)' % (k, c.get(k, 0), n))
     if len(agg['distinct']) < 1200:
